@@ -28,7 +28,7 @@ ASSUMPTIONS = [
     "a default config file that is not a readable regular file, or is empty, contributes nothing; the others still apply",
     "JSONARGPARSE_DEFAULT_ENV is read when the parser is constructed (documented); individual variables when it parses",
 ]
-PROBES = ["glob-multi", "glob-unsorted-listing", "dcf-nonfile-match", "dcf-unreadable-match", "dcf-empty-file", "env-on", "env-off-with-vars", "same-key-3-sources", "append", "dict-item", "cfg-on-argv", "env-skew"]
+PROBES = ["dcf-file-reached-twice", "glob-multi", "glob-unsorted-listing", "dcf-nonfile-match", "dcf-unreadable-match", "dcf-empty-file", "env-on", "env-off-with-vars", "same-key-3-sources", "append", "dict-item", "cfg-on-argv", "env-skew"]
 ANCHOR_FILES = ("_core", "_actions", "_namespace", "_typehints", "_formatters")
 NO_SHRINK = ("world/dirs", "world/cwd", "parser", "parser/*")
 SHRINK_DICTS = ("world/files", "world/env", "world/symlinks", "env_build", "direct")
@@ -130,6 +130,15 @@ def generate(rng, tier):
                 dirs.append(fn)
             elif c < 0.8:
                 files[fn] = {"text": json.dumps(doc(r, rnd_settings(r, hot))), "mode": 0o000}
+    if dcf and r.random() < 0.25:
+        # the same file reached twice: a pattern repeated, or a literal entry for a file a glob also matches
+        again = r.choice(dcf)
+        if again.endswith("/*.yaml") and r.random() < 0.6:
+            sub = again[: -len("/*.yaml")]
+            cands = [f for f in files if ("$W/" + f).startswith(sub.replace("../", "$W/") + "/")]
+            if cands:
+                again = "$W/" + r.choice(sorted(cands))
+        dcf.insert(r.randint(0, len(dcf)), again)
     env = {}
     if r.random() < 0.5:
         st = rnd_settings(r, hot)
@@ -242,7 +251,9 @@ def dcf_sources(sc, root, cwd, order="sorted", listing=None):
                 continue
             d = load_doc(txt)
             if d is not None:
-                out.append(("dcf", d))
+                if any(x[2] == os.path.realpath(f) for x in out):
+                    notes.add("dcf-file-reached-twice")
+                out.append(("dcf", d, os.path.realpath(f)))
     return out, notes
 
 
@@ -340,6 +351,13 @@ def fold(sc, root, cwd, variant=None, listing=None):
     elif variant == "dcf-reversed":
         order = "reversed"
     dsrc, notes = dcf_sources(sc, root, cwd, order, listing)
+    if variant == "dcf-duplicates-dropped":
+        seen, uniq = set(), []
+        for s in dsrc:
+            if s[2] not in seen:
+                seen.add(s[2])
+                uniq.append(s)
+        dsrc = uniq
     if variant == "dcf-patterns-reversed":
         dsrc = list(reversed(dsrc))
     if variant != "dcf-all-dropped":
@@ -374,7 +392,7 @@ def fold(sc, root, cwd, variant=None, listing=None):
     return st, touched, notes, on
 
 
-VARIANTS = ["dcf-all-dropped", "dcf-listing-order", "dcf-reversed", "dcf-patterns-reversed", "env-ignored", "env-forced", "env-vars-before-env-cfg", "env-after-method-source", "argv-right-to-left", "append-as-assign", "dict-item-as-assign"]
+VARIANTS = ["dcf-all-dropped", "dcf-duplicates-dropped", "dcf-listing-order", "dcf-reversed", "dcf-patterns-reversed", "env-ignored", "env-forced", "env-vars-before-env-cfg", "env-after-method-source", "argv-right-to-left", "append-as-assign", "dict-item-as-assign"]
 
 
 # ---------------------------------------------------------------------------------------------------
